@@ -12,6 +12,9 @@ from .exceptions import (
 )
 
 
+from .utils import split_lines  # noqa: E402
+
+
 class MicroDVDReader(BaseReader):
     def detect(self, content):
         return re.match(r"{\d+}{\d+}", content) is not None
@@ -20,7 +23,7 @@ class MicroDVDReader(BaseReader):
         if not isinstance(content, str):
             raise InvalidInputError('The content is not a unicode string.')
 
-        lines = content.splitlines()
+        lines = split_lines(content)
         captions = CaptionList()
         fps = Fraction(25)
         for line in lines:
